@@ -4,8 +4,12 @@
   are additive over `++`; the streaming update and the Pébay merge then are identities between rational
   functions (`field_simp; ring`). (2) every field of `summarize vs` gets a closed form (reverse
   induction), so `merge` = accumulator of the concatenation is shown field by field. (3) groups are
-  represented functionally (`keys.map fun k => (k, G k)`); `addRow` / `mergeGroups` are instances of
-  one `upsert` whose effect on that representation is a single lemma.
+  represented functionally (`keys.map fun k => (k, G k)`), for ANY key type with a lawful `==`; `addRow` /
+  `addRowPivot` / `mergeGroups` are instances of one `upsert` whose effect on that representation is a single
+  lemma; `aggregateSpec` and `aggregatePivotSpec` are instances of one grouped fold `foldG`, for which the closed
+  form (`foldG_rep`) and partition independence (`parts_foldG`) are proved once. (4) rollup / cube: every key
+  list is duplicate-free, so a row is counted once in each of its subtotal groups (`expand_filter`). (5) pivot:
+  the accumulators of a group are a concatenation of per-pivot-value blocks (`cellSumm`).
 -/
 import PysparklingVerif.Model.Agg
 import Mathlib.Tactic.FieldSimp
@@ -639,16 +643,17 @@ theorem merge_summarize (xs ys : List SV) (t : Ty) (h : TypedL t (xs ++ ys)) :
 
 /-! ### first-occurrence dedup of keys -/
 
-abbrev Key := List SV
+section Keys
+variable {κ : Type} [BEq κ] [LawfulBEq κ]
 
-def dedupK (l : List Key) : List Key := l.foldl (fun acc k => if k ∈ acc then acc else acc ++ [k]) []
+def dedupK (l : List κ) : List κ := l.foldl (fun acc k => if k ∈ acc then acc else acc ++ [k]) []
 
-@[simp] theorem dedupK_nil : dedupK [] = [] := rfl
-theorem dedupK_snoc (l : List Key) (k : Key) :
+@[simp] theorem dedupK_nil : dedupK ([] : List κ) = [] := rfl
+theorem dedupK_snoc (l : List κ) (k : κ) :
     dedupK (l ++ [k]) = if k ∈ dedupK l then dedupK l else dedupK l ++ [k] := by
   unfold dedupK; rw [List.foldl_append]; rfl
 
-theorem mem_dedupK (l : List Key) (k : Key) : k ∈ dedupK l ↔ k ∈ l := by
+theorem mem_dedupK (l : List κ) (k : κ) : k ∈ dedupK l ↔ k ∈ l := by
   induction l using list_rev_ind generalizing k with
   | nil => simp
   | snoc l a ih =>
@@ -662,7 +667,7 @@ theorem mem_dedupK (l : List Key) (k : Key) : k ∈ dedupK l ↔ k ∈ l := by
         · exact (ih _).1 ha
     · rw [if_neg ha, List.mem_append, List.mem_append, ih]
 
-theorem nodup_dedupK (l : List Key) : (dedupK l).Nodup := by
+theorem nodup_dedupK (l : List κ) : (dedupK l).Nodup := by
   induction l using list_rev_ind with
   | nil => simp
   | snoc l a ih =>
@@ -673,7 +678,7 @@ theorem nodup_dedupK (l : List Key) : (dedupK l).Nodup := by
       exact List.nodup_append.2 ⟨ih, by simp, by
         intro x hx y hy; simp at hy; subst hy; rintro rfl; exact ha hx⟩
 
-theorem dedupK_append (l₁ l₂ : List Key) :
+theorem dedupK_append (l₁ l₂ : List κ) :
     dedupK (l₁ ++ l₂) = dedupK l₁ ++ (dedupK l₂).filter (fun k => decide (k ∉ dedupK l₁)) := by
   induction l₂ using list_rev_ind with
   | nil => simp
@@ -682,6 +687,8 @@ theorem dedupK_append (l₁ l₂ : List Key) :
     by_cases h1 : a ∈ dedupK l₁
     · by_cases h2 : a ∈ dedupK l <;> simp [h1, h2, List.filter_append]
     · by_cases h2 : a ∈ dedupK l <;> simp [h1, h2, List.filter_append]
+
+end Keys
 
 /-! ### functional representation of groups and the generic `upsert` -/
 
@@ -701,111 +708,116 @@ theorem mem_rep {β : Type} {K : List β} {G : β → List St} {k : β} {sts : L
   simp only [rep, List.mem_map, Prod.mk.injEq] at h
   obtain ⟨k', hk', rfl, rfl⟩ := h
   exact ⟨hk', rfl⟩
+theorem rep_snoc {β : Type} (K : List β) (k : β) (G : β → List St) : rep (K ++ [k]) G = rep K G ++ [(k, G k)] := by
+  simp [rep]
+theorem rep_congr {β : Type} {K : List β} {G G' : β → List St} (h : ∀ k ∈ K, G k = G' k) : rep K G = rep K G' := by
+  unfold rep
+  exact List.map_congr_left fun k hk => by rw [h k hk]
 
-theorem upsert_rep {β : Type} [BEq β] [LawfulBEq β] [DecidableEq β] (K : List β) (G : β → List St) (key : β)
-    (upd : List St → List St) (ins : List St) :
-    upsert (rep K G) key upd ins
-      = rep (if key ∈ K then K else K ++ [key])
-          (fun k => if k = key then (if key ∈ K then upd (G key) else ins) else G k) := by
+/-- `upsert` on the functional representation: the key is appended if new, its accumulators replaced -/
+theorem upsert_rep_pos {β : Type} [BEq β] [LawfulBEq β] [DecidableEq β] (K : List β) (G : β → List St) (key : β)
+    (upd : List St → List St) (ins : List St) (hk : key ∈ K) :
+    upsert (rep K G) key upd ins = rep K (fun k => if k = key then upd (G key) else G k) := by
   unfold upsert rep
-  by_cases hk : key ∈ K
-  · have : (List.map (fun k => (k, G k)) K).any (fun x => x.1 == key) = true := by
-      simp [List.any_map, hk]
-    simp only [if_pos this, if_pos hk, List.map_map]
-    apply List.map_congr_left
-    intro k _
-    by_cases h : k = key
-    · subst h; simp
-    · simp [h]
-  · have : ¬ (List.map (fun k => (k, G k)) K).any (fun x => x.1 == key) = true := by
-      simp [List.any_map, hk]
-    simp only [if_neg this, if_neg hk, List.map_append]
-    congr 1
-    · apply List.map_congr_left
-      intro k hk'
-      have : k ≠ key := fun e => hk (e ▸ hk')
-      simp [this]
-    · simp
-
-/-! ### `aggregateSpec` in closed form -/
-
-abbrev RowT := List SV × List SV
-
-/-- one accumulator per aggregated column over the rows `rs` -/
-def colSumm (n : Nat) (rs : List RowT) : List St :=
-  (List.range n).map fun j => summarize (rs.map fun r => r.2.getD j .null)
-
-theorem colSumm_nil (n : Nat) : colSumm n [] = List.replicate n St.init := by
-  unfold colSumm
-  apply List.ext_getElem <;> simp [summarize]
-
-theorem list_eq_range_map (vals : List SV) : vals = (List.range vals.length).map fun j => vals.getD j .null := by
-  apply List.ext_getElem
-  · simp
-  · intro i h _; simp [h]
-
-theorem stepCols (n : Nat) (rs : List RowT) (r : RowT) (hr : r.2.length = n) :
-    ((colSumm n rs).zip r.2).map (fun (s, v) => s.step v) = colSumm n (rs ++ [r]) := by
-  unfold colSumm
-  conv => lhs; rw [list_eq_range_map r.2, hr]
-  rw [List.zip_map', List.map_map]
+  have : (List.map (fun k => (k, G k)) K).any (fun x => x.1 == key) = true := by
+    simp [List.any_map, hk]
+  simp only [if_pos this, List.map_map]
   apply List.map_congr_left
-  intro j _
-  simp [summarize_snoc]
+  intro k _
+  by_cases h : k = key
+  · subst h; simp
+  · simp [h]
 
-theorem addRow_eq_upsert (n : Nat) (g : Groups) (key vals : List SV) :
-    addRow n g key vals
-      = upsert g key (fun sts => (sts.zip vals).map fun (s, v) => s.step v)
-          (((List.replicate n St.init).zip vals).map fun (s, v) => s.step v) := rfl
+theorem upsert_rep_neg {β : Type} [BEq β] [LawfulBEq β] [DecidableEq β] (K : List β) (G : β → List St) (key : β)
+    (upd : List St → List St) (ins : List St) (hk : key ∉ K) :
+    upsert (rep K G) key upd ins = rep (K ++ [key]) (fun k => if k = key then ins else G k) := by
+  unfold upsert rep
+  have : ¬ (List.map (fun k => (k, G k)) K).any (fun x => x.1 == key) = true := by
+    simp [List.any_map, hk]
+  simp only [if_neg this, List.map_append]
+  congr 1
+  · apply List.map_congr_left
+    intro k hk'
+    have : k ≠ key := fun e => hk (e ▸ hk')
+    simp [this]
+  · simp
 
-theorem aggregateSpec_snoc (n : Nat) (rows : List RowT) (r : RowT) :
-    aggregateSpec n (rows ++ [r]) = addRow n (aggregateSpec n rows) r.1 r.2 := by
-  simp [aggregateSpec, List.foldl_append]
+/-! ### the generic grouped fold: `aggregateSpec` and `aggregatePivotSpec` are instances -/
 
-theorem filter_key_snoc (rows : List RowT) (r : RowT) (k : Key) :
-    (rows ++ [r]).filter (·.1 == k) = if r.1 = k then rows.filter (·.1 == k) ++ [r] else rows.filter (·.1 == k) := by
-  by_cases h : r.1 = k <;> simp [List.filter_append, h]
+def zipMerge (a b : List St) : List St := (a.zip b).map fun (s, t) => s.merge t
 
-theorem filter_key_eq_nil (rows : List RowT) (k : Key) (h : k ∉ rows.map (·.1)) :
-    rows.filter (·.1 == k) = [] := by
+section Gen
+variable {κ ρ : Type} [BEq κ] [LawfulBEq κ] [DecidableEq κ]
+
+/-- rows `r` are counted, in order, in the group `key r`, whose accumulators are updated by `stp r` -/
+def foldG (key : ρ → κ) (stp : ρ → List St → List St) (fresh : List St) (rows : List ρ) : GroupsK κ :=
+  rows.foldl (fun g r => updGroup g (key r) (stp r) fresh) []
+
+/-- the accumulators of one group after the rows `rs` -/
+def foldR (stp : ρ → List St → List St) (fresh : List St) (rs : List ρ) : List St :=
+  rs.foldl (fun s r => stp r s) fresh
+
+omit [BEq κ] [LawfulBEq κ] [DecidableEq κ] in
+theorem foldR_snoc (stp : ρ → List St → List St) (fresh : List St) (rs : List ρ) (r : ρ) :
+    foldR stp fresh (rs ++ [r]) = stp r (foldR stp fresh rs) := by
+  simp [foldR, List.foldl_append]
+
+omit [LawfulBEq κ] [DecidableEq κ] in
+theorem updGroup_eq_upsert (g : GroupsK κ) (key : κ) (f : List St → List St) (fresh : List St) :
+    updGroup g key f fresh = upsert g key f (f fresh) := rfl
+
+omit [LawfulBEq κ] [DecidableEq κ] in
+theorem foldG_snoc (key : ρ → κ) (stp : ρ → List St → List St) (fresh : List St) (rows : List ρ) (r : ρ) :
+    foldG key stp fresh (rows ++ [r]) = updGroup (foldG key stp fresh rows) (key r) (stp r) fresh := by
+  simp [foldG, List.foldl_append]
+
+omit [LawfulBEq κ] [DecidableEq κ] in
+theorem filter_key_snoc (key : ρ → κ) (rows : List ρ) (r : ρ) (k : κ) :
+    (rows ++ [r]).filter (key · == k) = if key r == k then rows.filter (key · == k) ++ [r] else rows.filter (key · == k) := by
+  by_cases h : key r == k <;> simp [List.filter_append, h]
+
+omit [DecidableEq κ] in
+theorem filter_key_eq_nil (key : ρ → κ) (rows : List ρ) (k : κ) (h : k ∉ rows.map key) :
+    rows.filter (key · == k) = [] := by
   rw [List.filter_eq_nil_iff]
   intro r hr hk
   exact h (List.mem_map.2 ⟨r, hr, by simpa using hk⟩)
 
-theorem aggregateSpec_rep (n : Nat) (rows : List RowT) (hlen : ∀ r ∈ rows, r.2.length = n) :
-    aggregateSpec n rows
-      = rep (dedupK (rows.map (·.1))) (fun k => colSumm n (rows.filter (·.1 == k))) := by
+theorem foldG_rep (key : ρ → κ) (stp : ρ → List St → List St) (fresh : List St) (rows : List ρ) :
+    foldG key stp fresh rows
+      = rep (dedupK (rows.map key)) (fun k => foldR stp fresh (rows.filter (key · == k))) := by
   induction rows using list_rev_ind with
   | nil => rfl
   | snoc rows r ih =>
-    have ih := ih (fun x hx => hlen x (List.mem_append_left _ hx))
-    have hr : r.2.length = n := hlen r (by simp)
-    rw [aggregateSpec_snoc, addRow_eq_upsert, ih, upsert_rep, List.map_append, List.map_singleton,
-      dedupK_snoc]
-    congr 1
-    funext k
-    rw [filter_key_snoc]
-    by_cases hk : k = r.1
-    · subst hk
-      rw [if_pos rfl, if_pos rfl, ← stepCols n _ r hr]
-      by_cases hm : r.1 ∈ dedupK (rows.map (·.1))
-      · rw [if_pos hm]
-      · rw [if_neg hm, filter_key_eq_nil rows r.1 (fun h => hm ((mem_dedupK _ _).2 h)), colSumm_nil]
-    · rw [if_neg hk, if_neg (fun e => hk e.symm)]
+    rw [foldG_snoc, updGroup_eq_upsert, ih, List.map_append, List.map_singleton, dedupK_snoc]
+    by_cases hm : key r ∈ dedupK (rows.map key)
+    · rw [if_pos hm, upsert_rep_pos _ _ _ _ _ hm]
+      apply rep_congr
+      intro k _
+      rw [filter_key_snoc]
+      by_cases hk : k = key r
+      · subst hk; rw [if_pos rfl, if_pos (by simp), foldR_snoc]
+      · rw [if_neg hk, if_neg (by simpa using fun e : key r = k => hk e.symm)]
+    · rw [if_neg hm, upsert_rep_neg _ _ _ _ _ hm]
+      apply rep_congr
+      intro k _
+      rw [filter_key_snoc]
+      by_cases hk : k = key r
+      · subst hk
+        rw [if_pos rfl, if_pos (by simp), foldR_snoc,
+          filter_key_eq_nil key rows (key r) (fun h => hm ((mem_dedupK _ _).2 h))]
+        rfl
+      · rw [if_neg hk, if_neg (by simpa using fun e : key r = k => hk e.symm)]
 
 /-! ### `mergeGroups` on the functional representation -/
 
-def zipMerge (a b : List St) : List St := (a.zip b).map fun (s, t) => s.merge t
-
-theorem mergeGroups_snoc (a b : Groups) (e : Key × List St) :
+omit [LawfulBEq κ] [DecidableEq κ] in
+theorem mergeGroups_snoc (a b : GroupsK κ) (e : κ × List St) :
     mergeGroups a (b ++ [e]) = upsert (mergeGroups a b) e.1 (fun s => zipMerge s e.2) e.2 := by
   simp only [mergeGroups, List.foldl_append, List.foldl_cons, List.foldl_nil]
   rfl
 
-theorem rep_snoc {β : Type} (K : List β) (k : β) (G : β → List St) : rep (K ++ [k]) G = rep K G ++ [(k, G k)] := by
-  simp [rep]
-
-theorem mergeGroups_rep (K₁ K₂ : List Key) (G₁ G₂ : Key → List St) (hnd : K₂.Nodup) :
+theorem mergeGroups_rep (K₁ K₂ : List κ) (G₁ G₂ : κ → List St) (hnd : K₂.Nodup) :
     mergeGroups (rep K₁ G₁) (rep K₂ G₂)
       = rep (K₁ ++ K₂.filter (fun k => decide (k ∉ K₁)))
           (fun k => if k ∈ K₂ then (if k ∈ K₁ then zipMerge (G₁ k) (G₂ k) else G₂ k) else G₁ k) := by
@@ -814,29 +826,139 @@ theorem mergeGroups_rep (K₁ K₂ : List Key) (G₁ G₂ : Key → List St) (hn
   | snoc K k ih =>
     have hK : K.Nodup := (List.nodup_append.1 hnd).1
     have hkK : k ∉ K := fun h => (List.nodup_append.1 hnd).2.2 k h k (by simp) rfl
-    rw [rep_snoc, mergeGroups_snoc, ih hK, upsert_rep]
+    rw [rep_snoc, mergeGroups_snoc, ih hK]
     have hmem : k ∈ K₁ ++ K.filter (fun k => decide (k ∉ K₁)) ↔ k ∈ K₁ := by
       simp [hkK]
-    congr 1
-    · by_cases h1 : k ∈ K₁
-      · rw [if_pos (hmem.2 h1)]; simp [List.filter_append, h1]
-      · rw [if_neg (fun h => h1 (hmem.1 h))]; simp [List.filter_append, h1]
-    · funext k'
+    by_cases h1 : k ∈ K₁
+    · rw [upsert_rep_pos _ _ _ _ _ (hmem.2 h1)]
+      have : (K ++ [k]).filter (fun k => decide (k ∉ K₁)) = K.filter (fun k => decide (k ∉ K₁)) := by
+        simp [List.filter_append, h1]
+      rw [this]
+      apply rep_congr
+      intro k' _
       by_cases hk : k' = k
-      · subst hk
-        by_cases h1 : k' ∈ K₁ <;> simp [h1, hkK]
+      · subst hk; simp [h1, hkK]
       · simp [hk]
+    · rw [upsert_rep_neg _ _ _ _ _ (fun h => h1 (hmem.1 h))]
+      have : (K ++ [k]).filter (fun k => decide (k ∉ K₁)) = K.filter (fun k => decide (k ∉ K₁)) ++ [k] := by
+        simp [List.filter_append, h1]
+      rw [this, List.append_assoc]
+      apply rep_congr
+      intro k' _
+      by_cases hk : k' = k
+      · subst hk; simp [h1, hkK]
+      · simp [hk]
+
+/-! ### partition independence, generically: it is enough that merging the accumulators of two row sequences
+of ONE group is the accumulator of their concatenation -/
+
+theorem merge_foldG (key : ρ → κ) (stp : ρ → List St → List St) (fresh : List St) (P : ρ → Prop)
+    (hM : ∀ xs ys : List ρ, (∀ r ∈ xs ++ ys, P r) →
+      zipMerge (foldR stp fresh xs) (foldR stp fresh ys) = foldR stp fresh (xs ++ ys))
+    (A B : List ρ) (h : ∀ r ∈ A ++ B, P r) :
+    mergeGroups (foldG key stp fresh A) (foldG key stp fresh B) = foldG key stp fresh (A ++ B) := by
+  rw [foldG_rep, foldG_rep, foldG_rep, mergeGroups_rep _ _ _ _ (nodup_dedupK _), List.map_append, dedupK_append]
+  apply rep_congr
+  intro k _
+  rw [List.filter_append]
+  by_cases hkB : k ∈ dedupK (B.map key)
+  · rw [if_pos hkB]
+    by_cases hkA : k ∈ dedupK (A.map key)
+    · rw [if_pos hkA]
+      apply hM
+      intro r hr
+      rcases List.mem_append.1 hr with hr | hr
+      · exact h r (List.mem_append_left _ (List.mem_filter.1 hr).1)
+      · exact h r (List.mem_append_right _ (List.mem_filter.1 hr).1)
+    · rw [if_neg hkA, filter_key_eq_nil key A k (fun h => hkA ((mem_dedupK _ _).2 h)), List.nil_append]
+  · rw [if_neg hkB, filter_key_eq_nil key B k (fun h => hkB ((mem_dedupK _ _).2 h)), List.append_nil]
+
+theorem parts_foldG (key : ρ → κ) (stp : ρ → List St → List St) (fresh : List St) (P : ρ → Prop)
+    (hM : ∀ xs ys : List ρ, (∀ r ∈ xs ++ ys, P r) →
+      zipMerge (foldR stp fresh xs) (foldR stp fresh ys) = foldR stp fresh (xs ++ ys))
+    (parts : List (List ρ)) (h : ∀ r ∈ parts.flatten, P r) :
+    (parts.map (foldG key stp fresh)).foldl mergeGroups [] = foldG key stp fresh parts.flatten := by
+  induction parts using list_rev_ind with
+  | nil => rfl
+  | snoc ps p ih =>
+    rw [List.flatten_append, List.flatten_singleton] at h ⊢
+    have ih := ih (fun r hr => h r (List.mem_append_left _ hr))
+    rw [List.map_append, List.foldl_append, ih]
+    exact merge_foldG key stp fresh P hM _ _ h
+
+end Gen
+
+/-! ### `aggregateSpec` in closed form -/
+
+/-- one accumulator per aggregated column over the rows `rs` -/
+def colSumm {α : Type} (n : Nat) (rs : List (α × List SV)) : List St :=
+  (List.range n).map fun j => summarize (rs.map fun r => r.2.getD j .null)
+
+theorem colSumm_nil {α : Type} (n : Nat) : colSumm n ([] : List (α × List SV)) = List.replicate n St.init := by
+  unfold colSumm
+  apply List.ext_getElem <;> simp [summarize]
+
+theorem colSumm_length {α : Type} (n : Nat) (rs : List (α × List SV)) : (colSumm n rs).length = n := by
+  simp [colSumm]
+
+theorem list_eq_range_map (vals : List SV) : vals = (List.range vals.length).map fun j => vals.getD j .null := by
+  apply List.ext_getElem
+  · simp
+  · intro i h _; simp [h]
+
+theorem stepCols {α : Type} (n : Nat) (rs : List (α × List SV)) (r : α × List SV) (hr : r.2.length = n) :
+    ((colSumm n rs).zip r.2).map (fun (s, v) => s.step v) = colSumm n (rs ++ [r]) := by
+  unfold colSumm
+  conv => lhs; rw [list_eq_range_map r.2, hr]
+  rw [List.zip_map', List.map_map]
+  apply List.map_congr_left
+  intro j _
+  simp [summarize_snoc]
+
+/-- the per-row update of `addRow` -/
+def colStep {α : Type} (r : α × List SV) (sts : List St) : List St := (sts.zip r.2).map fun (s, v) => s.step v
+
+theorem foldR_cols {α : Type} (n : Nat) (rs : List (α × List SV)) (hlen : ∀ r ∈ rs, r.2.length = n) :
+    foldR colStep (List.replicate n St.init) rs = colSumm n rs := by
+  induction rs using list_rev_ind with
+  | nil => rw [colSumm_nil]; rfl
+  | snoc rs r ih =>
+    rw [foldR_snoc, ih (fun x hx => hlen x (List.mem_append_left _ hx))]
+    exact stepCols n rs r (hlen r (by simp))
+
+section Agg
+variable {κ : Type} [BEq κ] [LawfulBEq κ] [DecidableEq κ]
+
+omit [LawfulBEq κ] [DecidableEq κ] in
+theorem aggregateSpec_eq_foldG (n : Nat) (rows : List (κ × List SV)) :
+    aggregateSpec n rows = foldG (·.1) colStep (List.replicate n St.init) rows := rfl
+
+omit [LawfulBEq κ] [DecidableEq κ] in
+theorem aggregate_eq_foldG (n : Nat) (parts : List (List (κ × List SV))) :
+    aggregate n parts = (parts.map (foldG (·.1) colStep (List.replicate n St.init))).foldl mergeGroups [] := rfl
+
+theorem aggregateSpec_rep (n : Nat) (rows : List (κ × List SV)) (hlen : ∀ r ∈ rows, r.2.length = n) :
+    aggregateSpec n rows
+      = rep (dedupK (rows.map (·.1))) (fun k => colSumm n (rows.filter (·.1 == k))) := by
+  rw [aggregateSpec_eq_foldG, foldG_rep]
+  apply rep_congr
+  intro k _
+  exact foldR_cols n _ (fun r hr => hlen r (List.mem_filter.1 hr).1)
+
+end Agg
 
 /-! ### partition independence -/
 
 /-- every aggregated column is homogeneously typed over all rows (same as `C14.RowsTyped`) -/
-def RowsTypedL (ts : List Ty) (rows : List RowT) : Prop :=
-  ∀ r ∈ rows, r.2.length = ts.length ∧ ∀ (j : Nat) (t : Ty) (v : SV), ts[j]? = some t → r.2[j]? = some v → v = .null ∨ tyOf v = some t
+def RowTyped {α : Type} (ts : List Ty) (r : α × List SV) : Prop :=
+  r.2.length = ts.length ∧ ∀ (j : Nat) (t : Ty) (v : SV), ts[j]? = some t → r.2[j]? = some v → v = .null ∨ tyOf v = some t
 
-theorem RowsTypedL.mono {ts : List Ty} {rows rows' : List RowT} (h : RowsTypedL ts rows)
+def RowsTypedL {α : Type} (ts : List Ty) (rows : List (α × List SV)) : Prop := ∀ r ∈ rows, RowTyped ts r
+
+theorem RowsTypedL.mono {α : Type} {ts : List Ty} {rows rows' : List (α × List SV)} (h : RowsTypedL ts rows)
     (hsub : ∀ r ∈ rows', r ∈ rows) : RowsTypedL ts rows' := fun r hr => h r (hsub r hr)
 
-theorem RowsTypedL.col {ts : List Ty} {rows : List RowT} (h : RowsTypedL ts rows) (j : Nat)
+theorem RowsTypedL.col {α : Type} {ts : List Ty} {rows : List (α × List SV)} (h : RowsTypedL ts rows) (j : Nat)
     (hj : j < ts.length) : TypedL ts[j] (rows.map fun r => r.2.getD j .null) := by
   intro v hv
   obtain ⟨r, hr, rfl⟩ := List.mem_map.1 hv
@@ -844,7 +966,7 @@ theorem RowsTypedL.col {ts : List Ty} {rows : List RowT} (h : RowsTypedL ts rows
   have hj' : j < r.2.length := hl ▸ hj
   exact ht j ts[j] _ (List.getElem?_eq_getElem hj) (by simp [hj'])
 
-theorem zipMerge_colSumm (ts : List Ty) (xs ys : List RowT) (h : RowsTypedL ts (xs ++ ys)) :
+theorem zipMerge_colSumm {α : Type} (ts : List Ty) (xs ys : List (α × List SV)) (h : RowsTypedL ts (xs ++ ys)) :
     zipMerge (colSumm ts.length xs) (colSumm ts.length ys) = colSumm ts.length (xs ++ ys) := by
   unfold zipMerge colSumm
   rw [List.zip_map', List.map_map]
@@ -856,37 +978,30 @@ theorem zipMerge_colSumm (ts : List Ty) (xs ys : List RowT) (h : RowsTypedL ts (
   simp only [Function.comp, List.map_append]
   exact merge_summarize _ _ _ this
 
-theorem merge_aggregateSpec (ts : List Ty) (A B : List RowT) (h : RowsTypedL ts (A ++ B)) :
-    mergeGroups (aggregateSpec ts.length A) (aggregateSpec ts.length B) = aggregateSpec ts.length (A ++ B) := by
-  have hA : ∀ r ∈ A, r.2.length = ts.length := fun r hr => (h r (List.mem_append_left _ hr)).1
-  have hB : ∀ r ∈ B, r.2.length = ts.length := fun r hr => (h r (List.mem_append_right _ hr)).1
-  rw [aggregateSpec_rep _ A hA, aggregateSpec_rep _ B hB, aggregateSpec_rep _ (A ++ B) (fun r hr => (h r hr).1),
-    mergeGroups_rep _ _ _ _ (nodup_dedupK _), List.map_append, dedupK_append]
-  congr 1
-  funext k
-  rw [List.filter_append]
-  by_cases hkB : k ∈ dedupK (B.map (·.1))
-  · rw [if_pos hkB]
-    by_cases hkA : k ∈ dedupK (A.map (·.1))
-    · rw [if_pos hkA]
-      apply zipMerge_colSumm
-      exact h.mono (fun r hr => by
-        rcases List.mem_append.1 hr with hr | hr
-        · exact List.mem_append_left _ (List.mem_filter.1 hr).1
-        · exact List.mem_append_right _ (List.mem_filter.1 hr).1)
-    · rw [if_neg hkA, filter_key_eq_nil A k (fun h => hkA ((mem_dedupK _ _).2 h)), List.nil_append]
-  · rw [if_neg hkB, filter_key_eq_nil B k (fun h => hkB ((mem_dedupK _ _).2 h)), List.append_nil]
+theorem zipMerge_foldR_cols {α : Type} (ts : List Ty) (xs ys : List (α × List SV)) (h : ∀ r ∈ xs ++ ys, RowTyped ts r) :
+    zipMerge (foldR colStep (List.replicate ts.length St.init) xs) (foldR colStep (List.replicate ts.length St.init) ys)
+      = foldR colStep (List.replicate ts.length St.init) (xs ++ ys) := by
+  rw [foldR_cols _ xs (fun r hr => (h r (List.mem_append_left _ hr)).1),
+    foldR_cols _ ys (fun r hr => (h r (List.mem_append_right _ hr)).1),
+    foldR_cols _ (xs ++ ys) (fun r hr => (h r hr).1)]
+  exact zipMerge_colSumm ts xs ys h
 
-theorem aggregate_eq_spec (ts : List Ty) (parts : List (List RowT)) (h : RowsTypedL ts parts.flatten) :
+theorem aggregate_eq_spec {κ : Type} [BEq κ] [LawfulBEq κ] [DecidableEq κ] (ts : List Ty)
+    (parts : List (List (κ × List SV))) (h : RowsTypedL ts parts.flatten) :
     aggregate ts.length parts = aggregateSpec ts.length parts.flatten := by
-  induction parts using list_rev_ind with
-  | nil => rfl
-  | snoc ps p ih =>
-    rw [List.flatten_append, List.flatten_singleton] at h ⊢
-    have ih := ih (h.mono fun r hr => List.mem_append_left _ hr)
-    unfold aggregate at ih ⊢
-    rw [List.map_append, List.foldl_append, ih]
-    exact merge_aggregateSpec ts _ _ h
+  rw [aggregate_eq_foldG, aggregateSpec_eq_foldG]
+  exact parts_foldG _ _ _ (RowTyped ts) (zipMerge_foldR_cols ts) parts h
+
+/-- `group_rows` for any lawful key equality -/
+theorem aggregateSpec_groups {κ : Type} [BEq κ] [LawfulBEq κ] [DecidableEq κ] (ts : List Ty)
+    (rows : List (κ × List SV)) (h : RowsTypedL ts rows) :
+    ((aggregateSpec ts.length rows).map (·.1)).Nodup ∧
+    (∀ k, k ∈ (aggregateSpec ts.length rows).map (·.1) ↔ k ∈ rows.map (·.1)) ∧
+    ∀ k sts, (k, sts) ∈ aggregateSpec ts.length rows →
+      sts = (List.range ts.length).map fun j => summarize ((rows.filter (·.1 == k)).map fun r => r.2.getD j .null) := by
+  rw [aggregateSpec_rep ts.length rows (fun r hr => (h r hr).1), rep_keys]
+  exact ⟨nodup_dedupK _, fun k => mem_dedupK _ k, fun k sts hks => (mem_rep hks).2⟩
+
 
 /-! ### rollup / cube keys -/
 
@@ -916,5 +1031,417 @@ theorem cubeKeys_sound (key : List SV) :
       cases i with
       | zero => simp
       | succ i => simpa using hi i v
+
+
+/-! ### `matchesKey` -/
+
+theorem matchesKey_nil_right (sk : List (Option SV)) : matchesKey sk [] = true ↔ sk = [] := by
+  cases sk <;> simp [matchesKey]
+
+theorem matchesKey_nil_left (key : List SV) : matchesKey [] key = true ↔ key = [] := by
+  cases key <;> simp [matchesKey]
+
+theorem matchesKey_cons_cons (o : Option SV) (sk : List (Option SV)) (v : SV) (key : List SV) :
+    matchesKey (o :: sk) (v :: key) = true ↔ (o = none ∨ o = some v) ∧ matchesKey sk key = true := by
+  cases o with
+  | none => simp [matchesKey]
+  | some w =>
+    simp only [matchesKey, List.length_cons, List.zip_cons_cons, List.all_cons, Bool.and_eq_true, beq_iff_eq,
+      Nat.add_right_cancel_iff, reduceCtorEq, Option.some.injEq, false_or]
+    tauto
+
+theorem matchesKey_length {sk : List (Option SV)} {key : List SV} (h : matchesKey sk key = true) :
+    sk.length = key.length := by
+  simp only [matchesKey, Bool.and_eq_true, beq_iff_eq] at h
+  exact h.1
+
+theorem matchesKey_replicate_none (key : List SV) : matchesKey (List.replicate key.length none) key = true := by
+  induction key with
+  | nil => rfl
+  | cons k ks ih => rw [List.length_cons, List.replicate_succ, matchesKey_cons_cons]; exact ⟨Or.inl rfl, ih⟩
+
+/-! ### rollup keys -/
+
+theorem rollupKeys_cons (k : SV) (ks : List SV) :
+    rollupKeys (k :: ks) = List.replicate (ks.length + 1) none :: (rollupKeys ks).map (some k :: ·) := by
+  unfold rollupKeys
+  rw [List.length_cons, List.range_succ_eq_map]
+  simp [List.map_map, Function.comp_def]
+
+theorem rollupKeys_length (key : List SV) : (rollupKeys key).length = key.length + 1 := by
+  simp [rollupKeys]
+
+theorem mem_rollupKeys (key : List SV) (sk : List (Option SV)) :
+    sk ∈ rollupKeys key ↔ ∃ i, i ≤ key.length ∧ sk = (key.take i).map some ++ List.replicate (key.length - i) none := by
+  unfold rollupKeys
+  rw [List.mem_map]
+  constructor
+  · rintro ⟨i, hi, rfl⟩; exact ⟨i, Nat.lt_succ_iff.1 (List.mem_range.1 hi), rfl⟩
+  · rintro ⟨i, hi, rfl⟩; exact ⟨i, List.mem_range.2 (Nat.lt_succ_iff.2 hi), rfl⟩
+
+theorem rollupKeys_nodup (key : List SV) : (rollupKeys key).Nodup := by
+  induction key with
+  | nil => simp [rollupKeys]
+  | cons k ks ih =>
+    rw [rollupKeys_cons, List.nodup_cons]
+    refine ⟨?_, ih.map (fun a b h => (List.cons.inj h).2)⟩
+    intro h
+    obtain ⟨r, _, hr⟩ := List.mem_map.1 h
+    rw [List.replicate_succ] at hr
+    exact absurd (List.cons.inj hr).1 (by simp)
+
+theorem rollupKeys_matches (key : List SV) : ∀ sk ∈ rollupKeys key, matchesKey sk key = true := by
+  induction key with
+  | nil => intro sk hsk; simp [rollupKeys] at hsk; subst hsk; rfl
+  | cons k ks ih =>
+    intro sk hsk
+    rw [rollupKeys_cons, List.mem_cons] at hsk
+    rcases hsk with rfl | hsk
+    · exact matchesKey_replicate_none (k :: ks)
+    · obtain ⟨r, hr, rfl⟩ := List.mem_map.1 hsk
+      rw [matchesKey_cons_cons]
+      exact ⟨Or.inr rfl, ih r hr⟩
+
+theorem rollupKeys_of_matches (key : List SV) : ∀ (sk : List (Option SV)) (key' : List SV),
+    sk ∈ rollupKeys key → matchesKey sk key' = true → sk ∈ rollupKeys key' := by
+  induction key with
+  | nil =>
+    intro sk key' hsk hm
+    simp [rollupKeys] at hsk; subst hsk
+    rw [(matchesKey_nil_left key').1 hm]; simp [rollupKeys]
+  | cons k ks ih =>
+    intro sk key' hsk hm
+    rw [rollupKeys_cons, List.mem_cons] at hsk
+    rcases hsk with rfl | hsk
+    · have hl := matchesKey_length hm
+      rw [List.length_replicate] at hl
+      rw [mem_rollupKeys]
+      exact ⟨0, Nat.zero_le _, by simp [hl]⟩
+    · obtain ⟨r, hr, rfl⟩ := List.mem_map.1 hsk
+      cases key' with
+      | nil => simp [matchesKey] at hm
+      | cons k' ks' =>
+        rw [matchesKey_cons_cons] at hm
+        obtain ⟨hk, hm⟩ := hm
+        have hk : k = k' := by simpa using hk
+        subst hk
+        rw [rollupKeys_cons]
+        exact List.mem_cons_of_mem _ (List.mem_map.2 ⟨r, ih r ks' hr hm, rfl⟩)
+
+/-! ### cube keys -/
+
+theorem mem_cubeKeys_cons (k : SV) (ks : List SV) (sk : List (Option SV)) :
+    sk ∈ cubeKeys (k :: ks) ↔ ∃ r ∈ cubeKeys ks, sk = none :: r ∨ sk = some k :: r := by
+  simp [cubeKeys, List.mem_flatMap]
+
+theorem mem_cubeKeys (key : List SV) : ∀ sk, sk ∈ cubeKeys key ↔ matchesKey sk key = true := by
+  induction key with
+  | nil => intro sk; rw [matchesKey_nil_right]; simp [cubeKeys]
+  | cons k ks ih =>
+    intro sk
+    rw [mem_cubeKeys_cons]
+    constructor
+    · rintro ⟨r, hr, rfl | rfl⟩
+      · rw [matchesKey_cons_cons]; exact ⟨Or.inl rfl, (ih r).1 hr⟩
+      · rw [matchesKey_cons_cons]; exact ⟨Or.inr rfl, (ih r).1 hr⟩
+    · intro hm
+      cases sk with
+      | nil => simp [matchesKey] at hm
+      | cons o r =>
+        rw [matchesKey_cons_cons] at hm
+        refine ⟨r, (ih r).2 hm.2, ?_⟩
+        rcases hm.1 with rfl | rfl
+        · exact Or.inl rfl
+        · exact Or.inr rfl
+
+theorem cubeKeys_nodup (key : List SV) : (cubeKeys key).Nodup := by
+  induction key with
+  | nil => simp [cubeKeys]
+  | cons k ks ih =>
+    show ((cubeKeys ks).flatMap fun r => [none :: r, some k :: r]).Nodup
+    rw [List.nodup_flatMap]
+    refine ⟨fun r _ => by simp, ?_⟩
+    refine List.Pairwise.imp ?_ ih
+    intro a b hab
+    simp only [Function.onFun, List.disjoint_left, List.mem_cons, List.not_mem_nil, or_false]
+    rintro x (rfl | rfl) (h | h)
+    · exact hab (List.cons.inj h).2
+    · exact absurd (List.cons.inj h).1 (by simp)
+    · exact absurd (List.cons.inj h).1 (by simp)
+    · exact hab (List.cons.inj h).2
+
+theorem groupByKeys_nodup (key : List SV) : (groupByKeys key).Nodup := by simp [groupByKeys]
+
+/-! ### `expand` -/
+
+theorem expand_append (keysOf : List SV → List (List (Option SV))) (a b : List (List SV × List SV)) :
+    expand keysOf (a ++ b) = expand keysOf a ++ expand keysOf b := by
+  simp [expand, List.flatMap_append]
+
+theorem expand_flatten (keysOf : List SV → List (List (Option SV))) (parts : List (List (List SV × List SV))) :
+    (parts.map (expand keysOf)).flatten = expand keysOf parts.flatten := by
+  induction parts with
+  | nil => rfl
+  | cons p ps ih => rw [List.map_cons, List.flatten_cons, List.flatten_cons, expand_append, ih]
+
+theorem mem_expand {keysOf : List SV → List (List (Option SV))} {rows : List (List SV × List SV)}
+    {e : List (Option SV) × List SV} :
+    e ∈ expand keysOf rows ↔ ∃ r ∈ rows, e.1 ∈ keysOf r.1 ∧ e.2 = r.2 := by
+  unfold expand
+  rw [List.mem_flatMap]
+  constructor
+  · rintro ⟨r, hr, he⟩
+    obtain ⟨sk, hsk, rfl⟩ := List.mem_map.1 he
+    exact ⟨r, hr, hsk, rfl⟩
+  · rintro ⟨r, hr, h1, h2⟩
+    exact ⟨r, hr, List.mem_map.2 ⟨e.1, h1, by rw [← h2]⟩⟩
+
+theorem expand_typed (keysOf : List SV → List (List (Option SV))) (ts : List Ty) (rows : List (List SV × List SV))
+    (h : RowsTypedL ts rows) : RowsTypedL ts (expand keysOf rows) := by
+  intro e he
+  obtain ⟨r, hr, _, h2⟩ := mem_expand.1 he
+  have := h r hr
+  unfold RowTyped at this ⊢
+  rw [h2]; exact this
+
+theorem mem_expand_keys (keysOf : List SV → List (List (Option SV))) (rows : List (List SV × List SV))
+    (sk : List (Option SV)) : sk ∈ (expand keysOf rows).map (·.1) ↔ ∃ r ∈ rows, sk ∈ keysOf r.1 := by
+  rw [List.mem_map]
+  constructor
+  · rintro ⟨e, he, rfl⟩
+    obtain ⟨r, hr, h1, _⟩ := mem_expand.1 he
+    exact ⟨r, hr, h1⟩
+  · rintro ⟨r, hr, h⟩
+    exact ⟨(sk, r.2), mem_expand.2 ⟨r, hr, h, rfl⟩, rfl⟩
+
+theorem nodup_filter_beq {α : Type} [BEq α] [LawfulBEq α] (a : α) : ∀ l : List α, l.Nodup →
+    l.filter (· == a) = if a ∈ l then [a] else [] := by
+  intro l
+  induction l with
+  | nil => simp
+  | cons x xs ih =>
+    intro hnd
+    rw [List.nodup_cons] at hnd
+    rw [List.filter_cons, ih hnd.2]
+    by_cases hx : x = a
+    · subst hx; simp [hnd.1]
+    · have : ¬ a = x := fun e => hx e.symm
+      simp [hx, this]
+
+/-- with duplicate-free keys a row is counted at most once in a subtotal group -/
+theorem expand_filter (keysOf : List SV → List (List (Option SV))) (hnd : ∀ k, (keysOf k).Nodup)
+    (sk : List (Option SV)) (rows : List (List SV × List SV)) :
+    (expand keysOf rows).filter (·.1 == sk)
+      = (rows.filter fun r => decide (sk ∈ keysOf r.1)).map fun r => (sk, r.2) := by
+  induction rows with
+  | nil => rfl
+  | cons r rows ih =>
+    have hexp : expand keysOf (r :: rows) = (keysOf r.1).map (fun s => (s, r.2)) ++ expand keysOf rows := by
+      simp [expand]
+    rw [hexp, List.filter_append, ih, List.filter_map]
+    have : ((fun x : List (Option SV) × List SV => x.1 == sk) ∘ fun s => (s, r.2)) = fun s => s == sk := rfl
+    rw [this, nodup_filter_beq sk _ (hnd r.1), List.filter_cons]
+    by_cases hm : sk ∈ keysOf r.1 <;> simp [hm]
+
+
+/-- `subtotals_are_groupby_subset` for any duplicate-free key expansion -/
+theorem aggregateSub_groups (keysOf : List SV → List (List (Option SV))) (hnd : ∀ k, (keysOf k).Nodup)
+    (ts : List Ty) (parts : List (List (List SV × List SV))) (h : RowsTypedL ts parts.flatten) :
+    ((aggregateSub keysOf ts.length parts).map (·.1)).Nodup ∧
+    (∀ sk, sk ∈ (aggregateSub keysOf ts.length parts).map (·.1) ↔ ∃ r ∈ parts.flatten, sk ∈ keysOf r.1) ∧
+    ∀ sk sts, (sk, sts) ∈ aggregateSub keysOf ts.length parts →
+      sts = (List.range ts.length).map fun j =>
+        summarize ((parts.flatten.filter fun r => decide (sk ∈ keysOf r.1)).map fun r => r.2.getD j .null) := by
+  have hT : RowsTypedL ts (expand keysOf parts.flatten) := expand_typed keysOf ts _ h
+  have hagg : aggregateSub keysOf ts.length parts = aggregateSpec ts.length (expand keysOf parts.flatten) := by
+    unfold aggregateSub
+    rw [aggregate_eq_spec ts _ (by rw [expand_flatten]; exact hT), expand_flatten]
+  rw [hagg]
+  obtain ⟨h1, h2, h3⟩ := aggregateSpec_groups ts _ hT
+  refine ⟨h1, fun sk => (h2 sk).trans (mem_expand_keys keysOf _ sk), fun sk sts hm => ?_⟩
+  rw [h3 sk sts hm]
+  apply List.map_congr_left
+  intro j _
+  rw [expand_filter keysOf hnd, List.map_map]
+  rfl
+
+
+/-! ### pivot -/
+
+theorem zip_flatMap_eqlen {α β γ : Type} (f : α → List β) (g : α → List γ) : ∀ l : List α,
+    (∀ p ∈ l, (f p).length = (g p).length) →
+    (l.flatMap f).zip (l.flatMap g) = l.flatMap (fun p => (f p).zip (g p)) := by
+  intro l
+  induction l with
+  | nil => intro _; rfl
+  | cons a l ih =>
+    intro h
+    rw [List.flatMap_cons, List.flatMap_cons, List.flatMap_cons,
+      List.zip_append (h a List.mem_cons_self), ih (fun p hp => h p (List.mem_cons_of_mem _ hp))]
+
+theorem length_flatMap_block {α β : Type} (n : Nat) (f : α → List β) : ∀ l : List α,
+    (∀ p ∈ l, (f p).length = n) → (l.flatMap f).length = l.length * n := by
+  intro l
+  induction l with
+  | nil => intro _; simp
+  | cons a l ih =>
+    intro h
+    rw [List.flatMap_cons, List.length_append, h a List.mem_cons_self,
+      ih (fun p hp => h p (List.mem_cons_of_mem _ hp)), List.length_cons, Nat.succ_mul, Nat.add_comm]
+
+/-- position `i * n + j` of a concatenation of blocks of length `n` is position `j` of block `i` -/
+theorem getElem?_flatMap_block {α β : Type} (n : Nat) (f : α → List β) : ∀ l : List α,
+    (∀ p ∈ l, (f p).length = n) → ∀ (i j : Nat) (p : α), l[i]? = some p → j < n →
+    (l.flatMap f)[i * n + j]? = (f p)[j]? := by
+  intro l
+  induction l with
+  | nil => intro _ i j p hi; simp at hi
+  | cons a l ih =>
+    intro h i j p hi hj
+    have ha := h a List.mem_cons_self
+    rw [List.flatMap_cons]
+    cases i with
+    | zero =>
+      simp only [List.getElem?_cons_zero, Option.some.injEq] at hi
+      subst hi
+      rw [Nat.zero_mul, Nat.zero_add, List.getElem?_append_left (by rw [ha]; exact hj)]
+    | succ i =>
+      rw [List.getElem?_cons_succ] at hi
+      rw [List.getElem?_append_right (by rw [ha, Nat.succ_mul]; omega), ha]
+      have : (i + 1) * n + j - n = i * n + j := by rw [Nat.succ_mul]; omega
+      rw [this]
+      exact ih (fun p hp => h p (List.mem_cons_of_mem _ hp)) i j p hi hj
+
+/-- the accumulator blocks of one pivoted group over the rows `rs`: one `colSumm` block per pivot value, over the
+rows with that pivot value -/
+def cellSumm {κ : Type} (n : Nat) (pvs : List SV) (rs : List (κ × SV × List SV)) : List St :=
+  pvs.flatMap fun p => colSumm n ((rs.map (·.2)).filter (·.1 == p))
+
+/-- the per-row update of `addRowPivot` -/
+def cellStep {κ : Type} (pvs : List SV) (r : κ × SV × List SV) (sts : List St) : List St :=
+  stepCells pvs r.2.1 sts r.2.2
+
+theorem cellSumm_length {κ : Type} (n : Nat) (pvs : List SV) (rs : List (κ × SV × List SV)) :
+    (cellSumm n pvs rs).length = pvs.length * n :=
+  length_flatMap_block n _ pvs (fun _ _ => colSumm_length n _)
+
+theorem cellSumm_nil {κ : Type} (n : Nat) (pvs : List SV) :
+    cellSumm n pvs ([] : List (κ × SV × List SV)) = List.replicate (pvs.length * n) St.init := by
+  unfold cellSumm
+  induction pvs with
+  | nil => simp
+  | cons p ps ih =>
+    rw [List.flatMap_cons, ih, List.map_nil, List.filter_nil, colSumm_nil, List.replicate_append_replicate,
+      List.length_cons, Nat.succ_mul, Nat.add_comm]
+
+theorem stepCells_cellSumm {κ : Type} (n : Nat) (pvs : List SV) (rs : List (κ × SV × List SV))
+    (r : κ × SV × List SV) (hr : r.2.2.length = n) :
+    stepCells pvs r.2.1 (cellSumm n pvs rs) r.2.2 = cellSumm n pvs (rs ++ [r]) := by
+  unfold stepCells cellSumm
+  rw [zip_flatMap_eqlen _ _ pvs (by intro p _; rw [colSumm_length, List.length_map, hr]), List.map_flatMap]
+  apply List.flatMap_congr
+  intro p _
+  rw [List.zip_map_right, List.map_map, List.map_append, List.filter_append, List.map_singleton]
+  by_cases hp : p = r.2.1
+  · have : [r.2].filter (·.1 == p) = [r.2] := by simp [hp]
+    rw [this, ← stepCols n _ r.2 hr]
+    apply List.map_congr_left
+    rintro ⟨s, v⟩ _
+    simp [hp]
+  · have : [r.2].filter (·.1 == p) = [] := by
+      simp only [List.filter_cons, List.filter_nil]
+      rw [if_neg (by simpa using fun e : r.2.1 = p => hp e.symm)]
+    rw [this, List.append_nil]
+    have hfst : ((fun x : St × SV × SV => if x.2.1 == r.2.1 then x.1.step x.2.2 else x.1) ∘
+        Prod.map id fun v => (p, v)) = (Prod.fst : St × SV → St) := by
+      funext x
+      simp [hp]
+    exact (congrArg (fun f => List.map f _) hfst).trans
+      (List.map_fst_zip (by rw [colSumm_length, hr]))
+
+theorem foldR_cells {κ : Type} (n : Nat) (pvs : List SV) (rs : List (κ × SV × List SV))
+    (hlen : ∀ r ∈ rs, r.2.2.length = n) :
+    foldR (cellStep pvs) (List.replicate (pvs.length * n) St.init) rs = cellSumm n pvs rs := by
+  induction rs using list_rev_ind with
+  | nil => rw [cellSumm_nil]; rfl
+  | snoc rs r ih =>
+    rw [foldR_snoc, ih (fun x hx => hlen x (List.mem_append_left _ hx))]
+    exact stepCells_cellSumm n pvs rs r (hlen r (by simp))
+
+theorem zipMerge_cellSumm {κ : Type} (ts : List Ty) (pvs : List SV) (xs ys : List (κ × SV × List SV))
+    (h : ∀ r ∈ xs ++ ys, RowTyped ts r.2) :
+    zipMerge (cellSumm ts.length pvs xs) (cellSumm ts.length pvs ys) = cellSumm ts.length pvs (xs ++ ys) := by
+  unfold zipMerge cellSumm
+  rw [zip_flatMap_eqlen _ _ pvs (by intro p _; rw [colSumm_length, colSumm_length]), List.map_flatMap]
+  apply List.flatMap_congr
+  intro p _
+  rw [List.map_append, List.filter_append]
+  refine zipMerge_colSumm ts _ _ ?_
+  intro q hq
+  rw [← List.filter_append, ← List.map_append] at hq
+  obtain ⟨r, hr, rfl⟩ := List.mem_map.1 (List.mem_filter.1 hq).1
+  exact h r hr
+
+theorem zipMerge_foldR_cells {κ : Type} (ts : List Ty) (pvs : List SV) (xs ys : List (κ × SV × List SV))
+    (h : ∀ r ∈ xs ++ ys, RowTyped ts r.2) :
+    zipMerge (foldR (cellStep pvs) (List.replicate (pvs.length * ts.length) St.init) xs)
+        (foldR (cellStep pvs) (List.replicate (pvs.length * ts.length) St.init) ys)
+      = foldR (cellStep pvs) (List.replicate (pvs.length * ts.length) St.init) (xs ++ ys) := by
+  rw [foldR_cells _ pvs xs (fun r hr => (h r (List.mem_append_left _ hr)).1),
+    foldR_cells _ pvs ys (fun r hr => (h r (List.mem_append_right _ hr)).1),
+    foldR_cells _ pvs (xs ++ ys) (fun r hr => (h r hr).1)]
+  exact zipMerge_cellSumm ts pvs xs ys h
+
+section Pivot
+variable {κ : Type} [BEq κ] [LawfulBEq κ] [DecidableEq κ]
+
+omit [LawfulBEq κ] [DecidableEq κ] in
+theorem aggregatePivotSpec_eq_foldG (n : Nat) (pvs : List SV) (rows : List (κ × SV × List SV)) :
+    aggregatePivotSpec n pvs rows = foldG (·.1) (cellStep pvs) (List.replicate (pvs.length * n) St.init) rows := rfl
+
+omit [LawfulBEq κ] [DecidableEq κ] in
+theorem aggregatePivot_eq_foldG (n : Nat) (pvs : List SV) (parts : List (List (κ × SV × List SV))) :
+    aggregatePivot n pvs parts
+      = (parts.map (foldG (·.1) (cellStep pvs) (List.replicate (pvs.length * n) St.init))).foldl mergeGroups [] := rfl
+
+/-- pivoted aggregation is independent of the partitioning -/
+theorem aggregatePivot_eq_spec (ts : List Ty) (pvs : List SV) (parts : List (List (κ × SV × List SV)))
+    (h : ∀ r ∈ parts.flatten, RowTyped ts r.2) :
+    aggregatePivot ts.length pvs parts = aggregatePivotSpec ts.length pvs parts.flatten := by
+  rw [aggregatePivot_eq_foldG, aggregatePivotSpec_eq_foldG]
+  exact parts_foldG _ _ _ (fun r => RowTyped ts r.2) (zipMerge_foldR_cells ts pvs) parts h
+
+theorem aggregatePivotSpec_rep (n : Nat) (pvs : List SV) (rows : List (κ × SV × List SV))
+    (hlen : ∀ r ∈ rows, r.2.2.length = n) :
+    aggregatePivotSpec n pvs rows
+      = rep (dedupK (rows.map (·.1))) (fun k => cellSumm n pvs (rows.filter (·.1 == k))) := by
+  rw [aggregatePivotSpec_eq_foldG, foldG_rep]
+  apply rep_congr
+  intro k _
+  exact foldR_cells n pvs _ (fun r hr => hlen r (List.mem_filter.1 hr).1)
+
+/-- the groups of the pivoted aggregation and the contents of each cell -/
+theorem aggregatePivotSpec_cells (n : Nat) (pvs : List SV) (rows : List (κ × SV × List SV))
+    (hlen : ∀ r ∈ rows, r.2.2.length = n) :
+    ((aggregatePivotSpec n pvs rows).map (·.1)).Nodup ∧
+    (∀ k, k ∈ (aggregatePivotSpec n pvs rows).map (·.1) ↔ k ∈ rows.map (·.1)) ∧
+    ∀ k sts, (k, sts) ∈ aggregatePivotSpec n pvs rows → sts.length = pvs.length * n ∧
+      ∀ (i j : Nat) (p : SV), pvs[i]? = some p → j < n →
+        sts[i * n + j]? = some (summarize ((rows.filter fun r => r.1 == k && r.2.1 == p).map fun r => r.2.2.getD j .null)) := by
+  rw [aggregatePivotSpec_rep n pvs rows hlen, rep_keys]
+  refine ⟨nodup_dedupK _, fun k => mem_dedupK _ k, fun k sts hks => ?_⟩
+  rw [(mem_rep hks).2]
+  refine ⟨cellSumm_length n pvs _, fun i j p hi hj => ?_⟩
+  unfold cellSumm
+  rw [getElem?_flatMap_block n _ pvs (fun _ _ => colSumm_length n _) i j p hi hj]
+  unfold colSumm
+  rw [List.getElem?_map, List.getElem?_range hj, Option.map_some, List.filter_map, List.map_map, List.filter_filter]
+  have hf : (rows.filter fun a => ((fun x : SV × List SV => x.1 == p) ∘ fun x : κ × SV × List SV => x.2) a && a.1 == k)
+      = rows.filter fun r => r.1 == k && r.2.1 == p :=
+    List.filter_congr fun r _ => Bool.and_comm _ _
+  rw [hf]
+  rfl
+
+end Pivot
 
 end PysparklingVerif.Agg
